@@ -557,7 +557,18 @@ def _api_monitor2(seed, i, fam, n, out):
             f.set_uncertainty(Q=Q1)
             return f(xk, xk * 1.1, xk * 0.0, Ppsd + Qk)
         return run
+    depth_bad = depth.clone(); depth_bad[0] = 0.0; depth_bad[1] = -1.0        # "no return" pixels
+    ulo, uhi = torch.full((1, 4, 2), -0.05, dtype=dt), torch.full((1, 4, 2), 0.05, dtype=dt)
+    def lqr_bounded():
+        return pp.module.LQR(pp.module.LTI(Alti, Blti, Clti, Dlti), Qlq, plq, 4)(x0lq, u_traj=u0lq, u_lower=ulo, u_upper=uhi)
+    class _Convex(torch.nn.Module):         # a locally convex kernel (second derivative > 0): the case Triggs exists for
+        def forward(self, x): return x + 0.05 * x * x
+    Jtr = g("Jtr", (n * 3, 4))
     calls = [
+        ("pixel2point:invalid-depth", lambda: pp.pixel2point(pix, depth_bad, K), [pix, depth_bad, K]),
+        ("LQR:bounds+nominal", lqr_bounded, [Alti, Blti, Qlq, plq, x0lq, u0lq, ulo, uhi]),
+        ("Triggs:convex-kernel", lambda: pp.optim.corrector.Triggs(_Convex())(R=v, J=Jtr), [v, Jtr]),
+        ("FastTriggs:J", lambda: pp.optim.corrector.FastTriggs(pp.optim.kernel.Cauchy(0.5))(R=v, J=Jtr), [v, Jtr]),
         ("IMU:zero-interval", imu_zero_interval, [ip, iv, ir, idt0, igy, iac]),
         ("ReduceToBason:step-reset-step", stepper_reuse, [l0, l1, l2, lb0, lb1]),
         ("EKF:retuned-between-steps", retune(pp.module.EKF), [Q1, R1, Q2, R2, xk, Ppsd]),
